@@ -5,7 +5,9 @@ package c15
 import (
 	"bytes"
 	"encoding/binary"
+	"errors"
 	"fmt"
+	"io"
 	"math"
 	"math/rand"
 	"runtime/metrics"
@@ -459,7 +461,20 @@ func probes(r *rand.Rand) []s2.Point {
 
 // decode runs the decoder and returns a function exercising the value.
 func decode(kind string, in []byte, r *rand.Rand, primer []byte, differs func(what string)) (error, func()) {
-	rd := bytes.NewReader(in)
+	// the bytes arrive through one of the reader shapes a caller may use: a bytes.Reader (also an
+	// io.ByteReader), or a plain io.Reader with short reads, one byte per read, data returned together with
+	// io.EOF, or a failure other than EOF after a prefix (a broken connection)
+	var rd io.Reader = bytes.NewReader(in)
+	switch r.Intn(10) {
+	case 0, 1:
+		rd = &shapedReader{b: in, r: r, max: 7}
+	case 2:
+		rd = &shapedReader{b: in, r: r, max: 1}
+	case 3:
+		rd = &shapedReader{b: in, r: r, max: 4096, eofWithData: true}
+	case 4:
+		rd = &shapedReader{b: in[:r.Intn(len(in)+1)], r: r, max: 64, failWith: errBroken}
+	}
 	var sink bytes.Buffer
 	cellProbe := s2.CellFromCellID(gen.RandCellID(r, r.Intn(31)))
 	switch kind {
@@ -662,4 +677,39 @@ func decode(kind string, in []byte, r *rand.Rand, primer []byte, differs func(wh
 		}
 		_ = v.NumChains()
 	}
+}
+
+var errBroken = errors.New("connection reset")
+
+type shapedReader struct {
+	b           []byte
+	r           *rand.Rand
+	max         int
+	eofWithData bool
+	failWith    error
+}
+
+func (sr *shapedReader) Read(p []byte) (int, error) {
+	if len(sr.b) == 0 {
+		if sr.failWith != nil {
+			return 0, sr.failWith
+		}
+		return 0, io.EOF
+	}
+	if len(p) == 0 {
+		return 0, nil
+	}
+	n := 1 + sr.r.Intn(sr.max)
+	if n > len(p) {
+		n = len(p)
+	}
+	if n > len(sr.b) {
+		n = len(sr.b)
+	}
+	copy(p, sr.b[:n])
+	sr.b = sr.b[n:]
+	if sr.eofWithData && len(sr.b) == 0 {
+		return n, io.EOF
+	}
+	return n, nil
 }
